@@ -108,6 +108,21 @@ fn build(p: &Value) -> NFA<()> {
     }
 }
 
+/// the pattern as a term of Automata/Regex.v
+fn cregex(p: &Value) -> String {
+    let o = p.as_object().expect("pattern object");
+    let (k, v) = o.iter().next().expect("pattern key");
+    match k.as_str() {
+        "l" => format!("(Lit {})", cbytes(&vbytes(v).iter().map(|b| b & 0x7f).collect::<Vec<u8>>())),
+        "p" => format!("(Pred {})", cbytes(&vbytes(v))),
+        "s" => format!("(Seq {})", clist(v.as_array().unwrap().iter().map(cregex))),
+        "c" => format!("(Choice {})", clist(v.as_array().unwrap().iter().map(cregex))),
+        "+" => format!("(Plus {})", cregex(v)),
+        "?" => format!("(Opt {})", cregex(v)),
+        _ => format!("(Many {})", cregex(v)),
+    }
+}
+
 const ALPHA: [u8; 4] = [97, 98, 99, 27];
 
 fn gen_pat(rng: &mut Rng, depth: u32) -> Value {
@@ -207,21 +222,24 @@ fn cdfa(d: &verif::DfaDump, tag: &dyn Fn(&str) -> (bool, usize)) -> String {
     format!("(mk_dfa_data {} {} {})", d.start, rows_s, infos_s)
 }
 
-fn tokenizer(pats: &[Value], items: &[bool]) -> verif::Tokenizer {
-    verif::Tokenizer::new(pats.iter().zip(items.iter()).map(|(p, i)| (build(p), *i)))
+fn tokenizer(pats: &[Value], items: &[bool], rejects: &[bool]) -> verif::Tokenizer {
+    verif::Tokenizer::with_rejects(
+        pats.iter().enumerate().map(|(k, p)| (build(p), items.get(k).copied().unwrap_or(false), rejects.get(k).copied().unwrap_or(false))),
+    )
 }
 
 fn run_gen(input: &Value) -> Case {
     let pats: Vec<Value> = input["pats"].as_array().cloned().unwrap_or_default();
     let items: Vec<bool> = input["items"].as_array().map(|a| a.iter().map(|b| b.as_bool().unwrap_or(false)).collect()).unwrap_or_default();
+    let rejects: Vec<bool> = input["rejects"].as_array().map(|a| a.iter().map(|b| b.as_bool().unwrap_or(false)).collect()).unwrap_or_default();
     let data = vbytes(&input["input"]);
     let parts = vparts(&input["parts"]);
-    let dump = tokenizer(&pats, &items).dump();
+    let dump = tokenizer(&pats, &items, &rejects).dump();
     let outs: Vec<Out> = parts
         .iter()
         .map(|cuts| {
             catch(AssertUnwindSafe(|| {
-                let mut t = tokenizer(&pats, &items);
+                let mut t = tokenizer(&pats, &items, &rejects);
                 let mut out = vec![];
                 let mut pos = 0;
                 for n in cuts {
@@ -243,7 +261,10 @@ fn run_gen(input: &Value) -> Case {
     let ntok = outs.first().and_then(|o| o.as_ref().map(|v| v.len())).unwrap_or(0);
     let has_item = outs.first().and_then(|o| o.as_ref().map(|v| v.iter().any(|t| matches!(t, ITok::It(..))))).unwrap_or(false);
     let has_raw = outs.first().and_then(|o| o.as_ref().map(|v| v.iter().any(|t| matches!(t, ITok::Rw(..))))).unwrap_or(false);
-    let head = format!("Gen {} {}", cdfa(&dump, &gen_tag), cbytes(&data));
+    let pats_s = clist(pats.iter().enumerate().map(|(k, p)| {
+        format!("({}, {}, {})", cregex(p), cbool(items.get(k).copied().unwrap_or(false)), cbool(rejects.get(k).copied().unwrap_or(false)))
+    }));
+    let head = format!("Gen {} {} {}", pats_s, cdfa(&dump, &gen_tag), cbytes(&data));
     Case {
         coq: cruns(&head, &parts, &outs),
         json: j,
@@ -397,6 +418,24 @@ fn run_prod(input: &Value) -> Case {
     j["impl"] = Value::Array(outs.iter().map(jout).collect());
     j["names"] = json!(names.map.iter().map(|(k, v)| (v.to_string(), k.clone())).collect::<BTreeMap<String, String>>());
     let table_s = clist(table.iter().map(|(k, v)| format!("({}, {})", cbytes(k), copt(v.map(|c| c.to_string())))));
+    // reader position after each decode() that returned an event, whole stream in one reader
+    let steps: Option<Vec<usize>> = catch(AssertUnwindSafe(|| {
+        let mut cur = Cursor::new(&data[..]);
+        let mut steps = vec![];
+        if which == 0 {
+            let mut dec = TTYEventDecoder::new();
+            while dec.decode(&mut cur).expect("decode").is_some() {
+                steps.push(cur.position() as usize);
+            }
+        } else {
+            let mut dec = TTYCommandDecoder::new();
+            while dec.decode(&mut cur).expect("decode").is_some() {
+                steps.push(cur.position() as usize);
+            }
+        }
+        steps
+    }));
+    j["steps"] = json!(steps);
     let head = format!("Prod {} {} {}", which, cbytes(&data), table_s);
     let first = outs.first().cloned().flatten().unwrap_or_default();
     let has_item = first.iter().any(|t| matches!(t, ITok::It(..)));
@@ -404,8 +443,9 @@ fn run_prod(input: &Value) -> Case {
     let esc = data.contains(&27);
     // a cut strictly inside an escape sequence / multi-byte char: some chunk boundary falls inside a token span
     let multi = table.iter().any(|(k, _)| k.len() >= 2);
+    let steps_s = copt(steps.as_ref().map(|v| clist(v.iter().map(|n| cnat(*n)))));
     Case {
-        coq: cruns(&head, &parts, &outs),
+        coq: format!("({} {})", cruns(&head, &parts, &outs), steps_s),
         json: j,
         tags: vec![
             format!("prod.{}", which_name(which)),
@@ -698,6 +738,7 @@ fn gen_case(rng: &mut Rng) -> Value {
     let np = 2 + rng.below(5) as usize;
     let pats: Vec<Value> = (0..np).map(|_| gen_pat(rng, 3)).collect();
     let items: Vec<bool> = (0..np).map(|_| rng.chance(1, 3)).collect();
+    let rejects: Vec<bool> = items.iter().map(|it| !*it && rng.chance(1, 4)).collect();
     let mut data = vec![];
     let pieces = rng.below(6);
     for _ in 0..pieces {
@@ -719,7 +760,7 @@ fn gen_case(rng: &mut Rng) -> Value {
     data.truncate(24);
     let n = data.len();
     let parts = if n <= 9 && rng.chance(1, 3) { all_cuts(n, n <= 7) } else { some_parts(rng, n) };
-    json!({"kind":"gen","pats":pats,"items":items,"input":jbytes(&data),"parts":parts})
+    json!({"kind":"gen","pats":pats,"items":items,"rejects":rejects,"input":jbytes(&data),"parts":parts})
 }
 
 pub fn generate(rng: &mut Rng, n: usize, tier: &str) -> Vec<Value> {
